@@ -150,7 +150,7 @@ def patch(key, text, c):
     t = text
     if c['style'] == 'abs':
         # only the order list is modelled for these types: the representation predicate is seq + lnk + count
-        t = '\n'.join(l for l in t.split('\n') if not re.match(r'//@   requires %s(tab0|tab1|cel0|cel1|ent0|ent1|inl)\(this\)$' % P, l))
+        t = '\n'.join(l for l in t.split('\n') if not re.match(r'//@   requires %s(tab0|tab1|cel0|cel1|ent0a|ent0b|ent0c|ent1|inl)\(this\)$' % P, l))
     if key == 'spec @P@hash':
         if c['HASH'] is None:
             return '// the hash of a %s key is computed by another package; it is used only through "equal keys have equal hashes"\n//@ spec fn %shash(k %s) uint' % (c['K'], P, c['K'])
@@ -265,6 +265,12 @@ def generate(name, first):
         out.append(t)
     for blk in custom.blocks_for(name, c):
         t = inst(blk, c)
+        if c.get('HASH') and '//@ func ' in t:
+            # string keys: the hash definitions (CRC-32 / polynomial fold of another package) stay hidden in these units too
+            if 'crc32fold' in c['HASH']:
+                t = t.replace('//@   arith int\n', '//@   arith int\n//@   opaque %shash hash.crc32fold\n' % c['P'], 1)
+            elif 'jhash' in c['HASH']:
+                t = t.replace('//@   arith int\n', '//@   arith int\n//@   opaque %shash stringutil.jhash\n' % c['P'], 1)
         m = re.search(r'^//@ func (\S+)', t, re.M)
         if m and m.group(1) not in have:
             continue
